@@ -25,6 +25,7 @@ static std::string runOne(int workers, const std::vector<Prod> &prods, const vf:
   vf::Options o = opt;
   o.maxSteps = 20000;
   o.pointAfterUnlock = true;
+  o.earliestDeadlineFirst = true;
   vf::reset(o);
   vf::spawn("main",
             [tr, workers, &prods]()
